@@ -25,6 +25,7 @@ def jobs(tier, seed):
     out.append({"kind": "pump-sched", "gran": "opcode", "bound": 1, "ncmd": 2, "slow": True})
     out.append({"kind": "pump-sched", "gran": "line", "bound": 2 if q else 3, "ncmd": 3, "set_calls": True})
     out.append({"kind": "pump-sched", "gran": "line", "bound": 1 if q else 2, "ncmd": 2, "set_calls": True, "slow": True})
+    out.append({"kind": "pump-sched", "gran": "line", "bound": 1 if q else 2, "ncmd": 2, "set_calls": True, "callback_cmds": True})
     for i in range(4 if q else 16):
         out.append({"kind": "sim-race", "seed": seed, "i": i, "n": 60 if q else 400})
     for i in range(6 if q else 16):
@@ -68,7 +69,8 @@ def target_codes():
     import mysensors.transport as tr
 
     fns = [tr.Transport.send, tr.SyncTransport.send, tr.Transport.disconnect, tr.BaseMySensorsProtocol.connection_lost,
-           tr.BaseMySensorsProtocol._connection_lost, tr.BaseMySensorsProtocol.connection_made, tr.BaseMySensorsProtocol._connection_made]
+           tr.BaseMySensorsProtocol._connection_lost, tr.BaseMySensorsProtocol.connection_made, tr.BaseMySensorsProtocol._connection_made,
+           tr.SyncTransport.connect]
     return [f.__code__ for f in fns]
 
 
@@ -85,10 +87,34 @@ def run_sched(job, res):
     def make(explorer):
         gw = Gateway()
         reconnects = []
+        # the real connect() runs (it is what send() and the protocol call to ask for a reconnect); the thread it would
+        # start is observed instead of started, every lock it creates or takes is one the scheduler knows
+        class NoThread:
+            def __init__(self, *a, **kw):
+                pass
+
+            def start(self):
+                reconnects.append(1)
+
+            def is_alive(self):
+                return False
+
+            def join(self, timeout=None):
+                return None
+
+        class Threading:
+            Thread = NoThread
+
+            def Lock(self):
+                return SchedLock(explorer)
+
+            RLock = Lock
+
+            def __getattr__(self, name):
+                return getattr(threading, name)
+
+        tr.threading = Threading()
         t = tr.SyncTransport(gw, lambda transport: reconnects.append(1))
-        # the reconnect hook would spawn an (uncontrolled) thread: observe the request instead
-        t.connect = lambda: reconnects.append(1)
-        t.protocol.conn_lost_callback = t.connect
         t._lock = SchedLock(explorer)
         gw.tasks = type("T", (), {"transport": t})()
         c1 = Conn(wfail)
@@ -152,6 +178,7 @@ def run_sched(job, res):
         res.sample({"kind": "sched", "scenario": scenario, "write_fails": wfail, "gran": job["gran"], "bound": job["bound"]})
     finally:
         ex.uninstall()
+        tr.threading = threading
 
 
 def run_pump_sched(job, res):
@@ -200,13 +227,28 @@ def run_pump_sched(job, res):
         def disconnect(self):
             pass
 
+    callback_cmds = job.get("callback_cmds", False)
+
     def make(explorer):
         t = T()
+        state = {"sleeps": 0, "clockn": 0}
         # events / locks the tasks object creates are scheduler-aware (a wait yields instead of blocking the OS thread)
-        with Patched((mtask, "threading", SchedThreading(explorer))):
-            gw = BaseSyncGateway(t)
+        sthr = SchedThreading(explorer, capture=callback_cmds)
+        if callback_cmds:
+            # the pump is started the way an application starts it (tasks.start()): the thread object it creates is
+            # captured and its target runs on the controlled thread B, which threading.current_thread() then reports
+            mtask.threading = sthr
+
+            def cb(msg):
+                if msg.type == 1 and msg.sub_type == 3 and state.get("armed") and "cb_at" not in state:
+                    state["clockn"] += 1
+                    state["cb_at"] = state["clockn"]
+                    gw.set_child_value(1, 1, 2, "1")     # the application reacts to a report with a command of its own
+            gw = BaseSyncGateway(t, event_callback=cb)
+        else:
+            with Patched((mtask, "threading", sthr)):
+                gw = BaseSyncGateway(t)
         tasks = gw.tasks
-        state = {"sleeps": 0}
 
         class FakeTime:
             def __getattr__(self, n):
@@ -231,12 +273,20 @@ def run_pump_sched(job, res):
 
             monotonic = perf_counter
 
-        ctx = {"t": t, "tasks": tasks, "gw": gw, "time": FakeTime()}
-        if set_calls:
-            for line in ("1;255;0;0;17;1.4", "1;1;0;0;4;dimmer", "1;1;1;0;3;0"):
+        ctx = {"t": t, "tasks": tasks, "gw": gw, "time": FakeTime(), "state": state}
+        if set_calls or callback_cmds:
+            for line in ("1;255;0;0;17;1.4", "1;1;0;0;4;dimmer", "1;1;1;0;3;0", "1;1;1;0;2;0"):
                 gw.logic(line)
+        if callback_cmds:
+            state["armed"] = True
+            tasks.add_job(gw.logic, "1;1;1;0;3;55")       # a report from the node is waiting to be handled
 
         def producer():
+            if callback_cmds:
+                gw.set_child_value(1, 1, 3, "10")
+                state["clockn"] += 1
+                state["a_done"] = state["clockn"]
+                return
             for k in range(NCMD):
                 if set_calls:
                     gw.set_child_value(1, 1, 3, str(10 * (k + 1)))      # the same child and value type every time
@@ -250,7 +300,11 @@ def run_pump_sched(job, res):
             if slow and hasattr(mtask, "timer"):
                 patches.append((mtask, "timer", ctx["time"].perf_counter))
             with Patched(*patches):
-                tasks._poll_queue()
+                if callback_cmds:
+                    tasks.start()
+                    sthr.started[-1].run_here()
+                else:
+                    tasks._poll_queue()
         return producer, pump, ctx
 
     ex.install()
@@ -259,7 +313,7 @@ def run_pump_sched(job, res):
         for run, ctx, stuck, sched in ex.explore(make, job["bound"]):
             res.evals += 1
             res.count("pump_schedules")
-            case = {"kind": "pump-sched", "gran": job["gran"], "schedule": sched, "bound": job["bound"], "with_stop": with_stop, "slow": slow, "set_calls": set_calls}
+            case = {"kind": "pump-sched", "gran": job["gran"], "schedule": sched, "bound": job["bound"], "with_stop": with_stop, "slow": slow, "set_calls": set_calls, "callback_cmds": job.get("callback_cmds", False)}
             if stuck:
                 res.count("stuck_schedules")
                 continue
@@ -277,6 +331,23 @@ def run_pump_sched(job, res):
                 res.violation(f"add-job-raises:{core.exc_sig(exc)}", f"add_job raised {type(exc).__name__}: {exc} under schedule {sched}", case)
                 continue
             tasks, t = ctx["tasks"], ctx["t"]
+            if callback_cmds:
+                while tasks.queue:
+                    t.send(tasks.run_job())
+                st = ctx["state"]
+                C1, C2 = "1;1;1;0;3;10\n", "1;1;1;0;2;1\n"
+                res.count("callback_command_schedules")
+                if sorted(t.log) != sorted([C1, C2]):
+                    res.violation("queued-command-lost-or-duplicated:callback", f"a controller thread queued {C1!r} and the event callback queued {C2!r}; written {t.log!r} under schedule {sched}", case)
+                elif st.get("a_done", 10**9) < st.get("cb_at", -1):
+                    res.count("callback_command_after_a_waiting_one")
+                    if t.log != [C1, C2]:
+                        res.violation("queued-command-reordered:callback-jumps-the-queue",
+                                      f"{C1!r} was queued by a controller thread before the event callback (poll thread) queued {C2!r}; written {t.log!r} under schedule {sched}", case)
+                if run.switches:
+                    n_inter += 1
+                    res.nontrivial(("pump-callback", job["gran"], sched["first"], tuple(i for i, c in enumerate(sched["choices"]) if c)))
+                continue
             want = [f"1;1;1;0;3;{10 * (k + 1)}\n" for k in range(NCMD)] if set_calls else [f"cmd-{k}\n" for k in range(NCMD)]
             if with_stop:
                 # after stop() pending commands may be dropped, but what was written must be a duplicate-free
@@ -301,6 +372,7 @@ def run_pump_sched(job, res):
         res.sample({"kind": "pump-sched", "gran": job["gran"], "bound": job["bound"], "commands": NCMD})
     finally:
         ex.uninstall()
+        mtask.threading = threading
 
 
 def run_sim_race(job, res):
@@ -492,7 +564,7 @@ def replay(case):
     elif case["kind"] == "sim-race":
         r = run({"kind": "sim-race", "seed": 0, "i": 0, "n": 200})
     elif case["kind"] == "pump-sched":
-        r = run({"kind": "pump-sched", "gran": case["gran"], "bound": case.get("bound", 2), "ncmd": 3, "with_stop": case.get("with_stop", False), "slow": case.get("slow", False), "set_calls": case.get("set_calls", False)})
+        r = run({"kind": "pump-sched", "gran": case["gran"], "bound": case.get("bound", 2), "ncmd": 3, "with_stop": case.get("with_stop", False), "slow": case.get("slow", False), "set_calls": case.get("set_calls", False), "callback_cmds": case.get("callback_cmds", False)})
     elif case["kind"] == "sched":
         r = run({"kind": "sched", "scenario": case["scenario"], "write_fails": case["write_fails"], "gran": case["gran"], "bound": 2})
     else:
@@ -508,24 +580,30 @@ def finish(agg, tier):
         "rule": "two real threads under a sys.monitoring controlled scheduler: one calls SyncTransport.send(cmd), the other one of "
                 "{connection_lost(exc), connection_lost(None), disconnect(), loss then connection_made(new)}; with the write "
                 "succeeding or raising OSError. All schedules with at most `bound` preemptions at source-line granularity (quick 2, "
-                "thorough 3) plus opcode granularity (quick 1, thorough 2), both start orders; the transport lock is scheduler-aware. "
+                "thorough 3) plus opcode granularity (quick 1, thorough 2), both start orders; the transport's real connect() runs (the thread "
+                "it would start is recorded instead) and every lock the transport creates is scheduler-aware, so two threads that only hand "
+                "the baton back and forth are reported as a deadlock of send(). "
                 "Oracle per schedule: no exception out of send, command written at most once and completely, never to a closed "
                 "connection (the fake refuses). Producer vs. the real poll loop (_poll_queue / run_job / add_job) under the same scheduler: "
                 "every queued command written exactly once and in queue order (events the tasks object waits on are scheduler-aware, so a "
-                "lost wake-up shows as the loop waiting forever with commands queued). The same races in the real threaded serial / "
+                "lost wake-up shows as the loop waiting forever with commands queued); in one variant the pump is started through tasks.start() "
+                "(the thread object it creates is captured, its target runs on the controlled thread and current_thread() reports it) and the "
+                "event callback queues a command of its own while one from a controller thread is waiting: both written once, the waiting one first. The same races in the real threaded serial / "
                 "TCP stacks under the thread simulation: a reply being sent exactly when the user disconnects or the link fails. "
                 "Producers x pump: 2-6 real producer threads and the real poll thread (switch interval "
                 "10 us) checked by an exactly-once / per-producer-FIFO log checker. Real stress: the real SerialGateway / TCPGateway on "
                 "a real pty / 127.0.0.1 socket, 3 producer threads queueing numbered commands while the device kills the connection "
                 "every 3-600 ms for 2-4 s, then a quiet phase and a final batch; the device's receive log is checked for commands "
                 "received twice, garbled or out of queue order, the poll thread must survive, and once the faults stop every queued "
-                "command must arrive (an anomaly counts when its mechanism shows again in one of two re-runs). distinct = (scenario, write outcome, granularity, "
+                "command must arrive, and stop() must return (if it has not after 12 s, the library frames of all threads are sampled three times: "
+                "stacks that do not move are reported as threads blocked for good) (an anomaly counts when its mechanism shows again in one of two re-runs). distinct = (scenario, write outcome, granularity, "
                 "start thread, switch positions); non-trivial when the schedule really switched inside both bodies.",
         "exhaustive": True,
         "floors": [("schedules", c.get("schedules", 0), 1500), ("schedules_with_real_interleaving", c.get("schedules_with_real_interleaving", 0), 1000),
                    ("commands_written", c.get("commands_written", 0), 4000),
                    ("pump_schedules_with_real_interleaving", c.get("pump_schedules_with_real_interleaving", 0), 300),
-                   ("sim_race_lifetimes", c.get("sim_race_lifetimes", 0), 200)]
+                   ("sim_race_lifetimes", c.get("sim_race_lifetimes", 0), 200),
+                   ("callback_command_after_a_waiting_one", c.get("callback_command_after_a_waiting_one", 0), 10)]
                   + ([] if c.get("real_device_unavailable") else
                      [("real_stress_runs[serial]", c.get("real_stress_runs[serial]", 0), 3), ("real_stress_runs[tcp]", c.get("real_stress_runs[tcp]", 0), 2),
                       ("real_stress_commands_received", c.get("real_stress_commands_received", 0), 2000),
